@@ -632,6 +632,12 @@ def merged_family(seed, n):
         elif shape == "reader-union-two-matching":
             # a reader union with TWO named branches that both match the writer's record by unqualified name / alias:
             # the first one is resolved — also when resolution then fails inside the value (no second try)
+            if r.random() < 0.6:
+                # the first candidate fails INSIDE the value: a reader-only field without a default, or an enum symbol it lacks
+                extra = [nm for nm in names if nm not in f1]
+                if extra:
+                    rrec = copy.deepcopy(rrec)
+                    rrec["fields"] = [f for f in rrec["fields"] if f["name"] != extra[0]] + [{"name": extra[0], "type": types[extra[0]][0]}]
             rrec2 = copy.deepcopy(rrec)
             rrec2["namespace"] = "v2"
             rrec2["fields"] = [dict(f, default=(f["default"] if "default" in f else
